@@ -106,6 +106,27 @@ def roundtrip_cmds(chk, backends, thorough, mode, emax_fn=None, xor_tables=None)
 BUILTIN = [BE_XOR, BE_RS]
 
 
+def _gcc_boundary(chk, prop, cmds, prefixes, maxcmds=40):
+    """Re-run the commands on the boundary shapes (k+m = 32, index 31: `1 << 31`, sign extension) and a sample of the
+    others on the production configuration (gcc -O2, hooks off): what undefined behaviour does is the compiler's choice
+    (D13), so "no observable effect" is established on the compiler the repository is built with as well."""
+    def shape(c):
+        t = c.split()
+        try:
+            return int(t[2]) + int(t[3])
+        except Exception:
+            return 0
+    big = [c for c in cmds if shape(c) == 32]
+    rest = [c for c in cmds if shape(c) != 32]
+    pick = big[:maxcmds] + rest[:: max(1, len(rest) // max(1, (maxcmds - len(big[:maxcmds]))))][: max(0, maxcmds - len(big[:maxcmds]))]
+    if not pick:
+        return
+    files, events, restarts = run_sweeps("gcc", pick, prop + "-gcc")
+    v = validate("TraceCodes", files)
+    _collect(chk, v, prefixes)
+    chk.parts["gcc_O2_commands"] = len(pick)
+
+
 def _finish_codes(chk, rule, trusted, exhaustive=True):
     chk.cov["rule"] = rule
     chk.cov["trusted_base"] = trusted
@@ -166,6 +187,7 @@ def c01(backends=None, prop="C01"):
     _samples(chk, files)
     if prop == "C01":
         _suite(chk, ["C13/C01", "C02 success", "fault"])
+        _gcc_boundary(chk, prop, cmds, ["C01", "C02", "fault", "create failed", "encode failed"])
     return _finish_codes(chk,
         "every tolerated erasure set (all |E|<hd of all 38 XOR tables; all |E|<=m of every RS shape with k+m<=%d; "
         "sampled sets on boundary/large shapes) x 3 fragment arrangements (in order; shuffled with duplicates and "
@@ -265,6 +287,7 @@ def c03(backends=None, prop="C03"):
     _samples(chk, files, kinds=("Rec",))
     if prop == "C03":
         _suite(chk, ["C13/C03", "C02 reconstruct", "fault"])
+        _gcc_boundary(chk, prop, cmds, ["C03", "C02 reconstruct", "C02 wrote", "fault", "create failed", "encode failed"])
     return _finish_codes(chk,
         "same scenario space as C01 x every missing destination (byte comparison of header, both CRCs and payload with the "
         "fragment encode produced), destinations among the supplied fragments, shuffled/unaligned lists, and destinations "
@@ -324,6 +347,9 @@ def c06(backends=None, prop="C06"):
     chk.cov["distinct_nontrivial"] = c[7]
     chk.parts["needed_events"] = c[7]; chk.parts["needed_refused"] = c[8]
     _samples(chk, files, kinds=("Need",))
+    if prop == "C06":
+        _suite(chk, ["C06", "fault"])
+        _gcc_boundary(chk, prop, cmds, ["C06", "fault", "create failed"])
     return _finish_codes(chk,
         "every ordered pair (R, X) of distinct-index lists with |R|+|X| < hd for all 38 XOR tables through the public API "
         "(356256 cases), |R|+|X| = hd and hd+1 %s; RS shapes k+m<=%d with |R|+|X| <= min(m,4) (all or seeded sample) and beyond; "
